@@ -1,12 +1,13 @@
 import Pandora.Drv.Util
 import Pandora.Model.C08
+import Pandora.Model.C08Chan
 import Pandora.Spec.C08
 
 namespace Pandora.Drv.C08
 open Pandora.Drv Pandora.Model.C08
 
 def parseKind : String → Option Kind
-  | "uri" => some .uri | "uripost" => some .uripost | "raw" => some .raw
+  | "uri" => some .uri | "uris" => some .uri | "uripost" => some .uripost | "raw" => some .raw
   | "jsonl" => some .jsonLines | "jsonarr" => some .jsonArray | "grpcjson" => some .grpcJson
   | "httpscn" => some .httpScenario | "grpcscn" => some .grpcScenario | "genjson" => some .genericJson
   | _ => none
@@ -17,12 +18,23 @@ def parseRun (s : String) : Spec.C08.RunClass :=
   | "noammo" => .noammo | "noreturn" => .noreturn | _ => .other
 
 def parseEnd : String → Option Spec.C08.EndClass
-  | "closed" => some .closed | "blocked" => some .blocked | "spinning" => some .spinning | _ => none
+  | "closed" => some .closed | "blocked" => some .blocked | "spinning" => some .spinning | "open" => some .open_ | _ => none
+
+inductive Mode where
+  | drain | stall | ext | engine
+  deriving DecidableEq, Repr
+
+def parseMode : String → Option Mode
+  | "" => some .drain | "drain" => some .drain | "stall" => some .stall | "ext" => some .ext | "engine" => some .engine
+  | _ => none
 
 structure Line where
   inp : Input
   n : Nat
   cell : Spec.C08.Cell
+  mode : Mode := .drain
+  cons : Nat := 1
+  shots : Nat := 0
 
 def parseLine (kv : List (String × String)) : Option Line := do
   let kind ← parseKind (getS kv "kind")
@@ -30,8 +42,11 @@ def parseLine (kv : List (String × String)) : Option Line := do
   let passes ← getN? kv "passes"
   let n ← getN? kv "n"
   let cap ← getN? kv "cap"
+  let mode ← parseMode (getS kv "mode")
+  let cons := (getN? kv "cons").getD 1
+  let shots := (getN? kv "shots").getD 0
   pure { inp := { kind, preload := getS kv "preload" == "1", b := ⟨limit, passes⟩, cancelAt := if cap = 0 then none else some cap },
-         n, cell := { limit, passes, n, cap } }
+         n, cell := { limit, passes, n, cap }, mode, cons, shots }
 
 def classOf : RunRes → Spec.C08.RunClass
   | .nil => .nil | .canceled => .canceled | .errLimit => .limit | .errPasses => .passes
@@ -47,19 +62,56 @@ def obsOf (cap : Nat) (ops : Nat) : Option (Outcome Nat) → Spec.C08.Obs
   | some o => { delivered := o.delivered.length, cut := decide (0 < cap ∧ cap ≤ o.delivered.length), run := classOf o.run,
                 end_ := if o.sinkClosed then .closed else .blocked, ops }
 
-/-- `ops`, and for a run that never returns whether it keeps reading the file (`spinning`) or not (`blocked`),
-are not predicted by the model: echoed from the implementation's observation -/
-def showObs (o : Spec.C08.Obs) (ops implEnd : String) : String :=
-  let e := if o.run == .noreturn then implEnd else endName o.end_
-  s!"delivered={o.delivered} cut={if o.cut then 1 else 0} run={runClassName o.run} end={e} ops={ops}"
+/-- the `seq=` field the harness prints when the ammo came in file order: one consumer ⇒ checked exactly; several
+consumers ⇒ checked (as a multiset) only when the acquisitions are complete -/
+def seqField (cons : Nat) (complete : Bool) : String := if cons ≤ 1 ∨ complete then "ok" else "na"
 
-/-- the model's observation of a cell, in the harness' format -/
-def modelObs (l : Line) (ops : String) (implEnd : String := "spinning") : String :=
-  showObs (obsOf l.cell.cap 0 (run l.inp l.n)) ops implEnd
+def b01 (b : Bool) : String := if b then "1" else "0"
+
+/-- mode drain.  When the harness cancelled a BOUNDED cell the provider may also have reached its bound before it
+noticed the cancellation: `nil` is then as good as the model's `canceled` (echoed). -/
+def showDrain (l : Line) (o : Spec.C08.Obs) (ops implEnd implRun : String) (fired : Option String := none) : String :=
+  let e := if o.run == .noreturn then implEnd else endName o.end_
+  let run := if o.cut ∧ Spec.C08.bounded l.cell ∧ implRun == "nil" then "nil" else runClassName o.run
+  let f := match fired with | some f => s!" fired={f}" | none => ""
+  s!"delivered={o.delivered} cut={b01 o.cut}{f} run={run} end={e} seq={seqField l.cons (!o.cut)} ops={ops}"
+
+def modelDrain (l : Line) (ikv : List (String × String)) (fired : Option String := none) : String :=
+  showDrain l (obsOf l.cell.cap 0 (run l.inp l.n)) (getS ikv "ops" "0") (getS ikv "end" "spinning") (getS ikv "run") fired
 
 def parseObs (kv : List (String × String)) : Option Spec.C08.Obs := do
   pure { delivered := ← getN? kv "delivered", cut := getS kv "cut" == "1", run := parseRun (getS kv "run"),
-         end_ := ← parseEnd (getS kv "end"), ops := ← getN? kv "ops" }
+         end_ := ← parseEnd (getS kv "end"), ops := ← getN? kv "ops",
+         seqOk := getS kv "seq" == "ok" || getS kv "seq" == "na" }
+
+def parseStall (kv : List (String × String)) : Option Spec.C08.StallObs := do
+  pure { delivered := ← getN? kv "delivered", cut := getS kv "cut" == "1", ret := getS kv "ret" == "1",
+         run := parseRun (getS kv "run"), left := ← getN? kv "left", end_ := ← parseEnd (getS kv "end"),
+         seqOk := getS kv "seq" == "ok" || getS kv "seq" == "na" }
+
+def parseEng (kv : List (String × String)) : Option Spec.C08.EngObs := do
+  pure { shots := ← getN? kv "shots", errNil := getS kv "err" == "nil", errText := getS kv "err",
+         wait := getS kv "wait" == "1", seqOk := getS kv "seq" == "ok" || getS kv "seq" == "na" }
+
+/-- mode stall: everything but `left` is determined (`left` = what the provider managed to put into the channel
+buffer before the cancel: echoed when it is within the Spec's bounds) -/
+def modelStall (l : Line) (o : Spec.C08.StallObs) : String :=
+  let cc := l.inp.kind.chanCap
+  let d := Spec.C08.stallWant l.cell
+  let self := Spec.C08.selfEnding l.cell cc
+  let run := if self then "nil" else if l.inp.kind.answersCanceled then "canceled" else "nil"
+  let left :=
+    match Spec.C08.expected l.cell.limit l.cell.passes l.cell.n with
+    | some m => if self then m - d else if o.left ≤ cc ∧ d + o.left ≤ m then o.left else cc
+    | none => if o.left ≤ cc then o.left else cc
+  s!"delivered={d} cut={b01 (!self)} ret=1 run={run} left={left} end=closed seq=ok"
+
+def modelEngine (l : Line) : String :=
+  let w := match Spec.C08.engWant l.cell l.shots with | some w => toString w | none => "unbounded"
+  let complete := match Spec.C08.expected l.cell.limit l.cell.passes l.cell.n with
+    | some m => decide (l.shots = 0 ∨ m ≤ l.shots)
+    | none => false
+  s!"shots={w} err=nil wait=1 seq={seqField l.cons complete}"
 
 def handle : Handler := fun input impl =>
   match parseLine (parseKV input) with
@@ -68,10 +120,34 @@ def handle : Handler := fun input impl =>
     if l.n = 0 then ("-", "skip:empty-file") else
     let ikv := parseKV impl
     match lookup ikv "construct" with
-    | some e => (modelObs l "0", s!"fail:construct:{e}")
+    | some e => (modelDrain l [], s!"fail:construct:{e}")
     | none =>
-      match parseObs ikv with
-      | none => (modelObs l "0", s!"fail:crash:{impl.take 120}")
-      | some o => (modelObs l (getS ikv "ops") (getS ikv "end"), Spec.C08.judge l.cell o)
+      match l.mode with
+      | .drain =>
+        if l.cell.cap = 0 ∧ !Spec.C08.bounded l.cell then ("-", "skip:unbounded-cell-without-cap") else
+        match parseObs ikv with
+        | none => (modelDrain l [], s!"fail:crash:{impl.take 120}")
+        | some o => (modelDrain l ikv, Spec.C08.judge l.cell o)
+      | .ext =>
+        if l.cell.cap = 0 ∧ !Spec.C08.bounded l.cell then ("-", "skip:unbounded-cell-without-cap") else
+        match parseObs ikv with
+        | none => (modelDrain l [] (some "0"), s!"fail:crash:{impl.take 120}")
+        | some o =>
+          let fired := getS ikv "fired" == "1"
+          let ac := l.inp.kind.answersCanceled
+          if fired ∧ Spec.C08.extHolds l.cell ac true o then
+            -- a cancellation at that point leaves the count open: the observation is one the model allows
+            (s!"delivered={o.delivered} cut={b01 o.cut} fired=1 run={runClassName o.run} end=closed seq={getS ikv "seq"} ops={getS ikv "ops"}",
+             "ok")
+          else (modelDrain l ikv (some (getS ikv "fired" "0")), Spec.C08.extJudge l.cell ac fired o)
+      | .stall =>
+        match parseStall ikv with
+        | none => ("-", s!"fail:crash:{impl.take 120}")
+        | some o => (modelStall l o, Spec.C08.stallJudge l.cell l.inp.kind.chanCap o)
+      | .engine =>
+        if l.shots = 0 ∧ !Spec.C08.bounded l.cell then ("-", "skip:nothing-ends-this-run") else
+        match parseEng ikv with
+        | none => (modelEngine l, s!"fail:crash:{impl.take 120}")
+        | some o => (modelEngine l, Spec.C08.engJudge l.cell l.shots o)
 
 end Pandora.Drv.C08
